@@ -288,6 +288,6 @@ pub fn run(r: &mut Runner) {
         let groups = crate::hist::unary_groups(&[Op::sin, Op::cos], &bases, [0.9, 1e-18]);
         crate::hist::explore(r, "histories: sin/cos/tan/sin_cos", &groups, 3, &hist_judge, 14u64 << 55);
         // cross-family histories: the same judged calls, preceded by every other public function on the same operands
-        crate::hist::explore_mixed(r, "cross-family histories: any public call, then sin/cos/tan/sin_cos", &groups[..groups.len().min(2)], 2, &hist_judge, (14u64 << 55) + (1u64 << 53));
+        crate::hist::explore_mixed(r, "cross-family histories: any public call, then sin/cos/tan/sin_cos", &groups, 2, &hist_judge, (14u64 << 55) + (1u64 << 53));
     }
 }
